@@ -450,6 +450,7 @@ pub fn cases(tier: &str, seed: u64) -> Vec<Case> {
             }
         }
     }
+    for m in crate::props::pk::ipseckey_cut_messages(&[]).into_iter().chain(crate::props::pk::ipseckey_cut_messages(&[0u8; 20])) { v.push(parse_case(&m, "ipseckey-cut")); }
     // stack: the work per message is bounded in stack depth too. A parser that descends once per compression pointer
     // or per label needs a frame for each of up to ~8000 hops; on a service thread (tokio workers, spawned threads with
     // a small stack) that is a crash of the whole process, which no catch_unwind sees. The deep messages above and a
